@@ -13,7 +13,7 @@ def gen_case(r, info=None):
     """a session: boards log in at random addresses, then reports from several nodes, some under pressure"""
     ev = []; where = {}
     if info is not None and r.chance(1, 6):
-        return gen_congested(r, info)
+        return gen_refill(r, info) if r.chance(1, 2) else gen_congested(r, info)
     order = list(range(4)); 
     for i in order:
         if r.chance(4, 5):
@@ -76,6 +76,25 @@ def gen_congested(r, info):
     for _ in range(r.range(1, 3)):
         ev.append(("up", n, r.below(256), r.choice([0xA0, 0xA1]), [r.below(256)]))
     ev.append(("up", staller, 0, 0x8E, [0]))
+    ev.append(("must_drain",))
+    return ev, where
+
+def gen_refill(r, info):
+    """a SecAck board whose budget is used up EXACTLY (k requests of response size s, k*s = 48), one more request held, a report
+    whose mirror (response size 0) waits behind it; one answer arrives: the held request goes out and fills the budget to
+    exactly 48 again - the mirror needs no budget and must be on the wire then, exactly once"""
+    ev = [("time", 1000)]; where = {}
+    parent = r.choice([(), (1,)]); local = r.range(2, 9); n = tuple(parent) + (local,)
+    i = r.choice([k for k in range(4) if BOARDS[k][2]]); where[i] = n
+    if parent: ev.append(("up", (), r.below(256), 0x8D, [r.below(256), parent[0]] + UNKNOWN_UID))
+    ev.append(("up", parent, r.below(256), 0x8D, [r.below(256), local] + BOARDS[i][1]))
+    fit = [t for t in range(1, 0x80) if flowgen.rsize(info, t) in (6, 8, 12, 16, 24, 48) and flowgen.answers(info, t)
+           and t in (0x02, 0x43, 0x48)]
+    t = r.choice(fit); s = flowgen.rsize(info, t); k = 48 // s
+    for _ in range(k + 1): ev.append(("send", n, t, [0, 0]))
+    for _ in range(r.range(1, 2)):
+        ev.append(("up", n, r.below(256), r.choice([0xA0, 0xA1]), [r.below(256)]))
+    ev.append(("up", n, r.below(256), flowgen.answers(info, t)[0], [r.below(256) for _ in range(6)]))
     ev.append(("must_drain",))
     return ev, where
 
